@@ -6,7 +6,7 @@
        0o177777); each real image must equal the image predicted for that base, rejections must be rejected; in
        addition the word-wise differences of the REAL images are compared with the differences of the predicted ones.
 """
-from ..asmcore import explore, replay_all, kinds_of
+from ..asmcore import explore, explore_replay, replay_all, kinds_of
 
 BASES = [512, 16384, 57342, 65534]          # 0o1000, 0o40000, 0o157776, 0o177776 (addresses wrap)
 
@@ -29,12 +29,12 @@ def main(run):
                 "labels, differences and '.', constants, .repeat, .include) assembled at bases 0o1000 0o40000 0o157776 0o177776; "
                 "non-trivial = accepted program with at least one instruction and at least one absolute address word (a word whose "
                 "predicted value moves with the base); distinct by abstract program")
-    recs, inc = explore(run, "RelocAlphabet", "RelocIncFiles", 4 if thorough else 3, 1, BASES if thorough else [512, 57342, 65534],
-                        label="AsmCore relocation exhaustive")
-    tasks = replay_all(run, recs, inc, {"harness_link": True, "check_syms": False}, nontrivial)
-    recs4, inc4 = explore(run, "RelocCoreAlphabet", "RelocIncFiles", 5 if thorough else 4, 1, BASES,
-                          label=f"AsmCore relocation core, all programs of <= {5 if thorough else 4} statements")
-    tasks += replay_all(run, recs4, inc4, {"harness_link": True, "check_syms": False}, nontrivial)
+    opts = {"harness_link": True, "check_syms": False}
+    tasks, inc = explore_replay(run, "RelocAlphabet", "RelocIncFiles", 3, 1, BASES if thorough else [512, 57342, 65534], opts, nontrivial,
+                                keep=40000, label="AsmCore relocation, all programs of <= 3 statements")
+    t4, _ = explore_replay(run, "RelocCoreAlphabet", "RelocIncFiles", 5 if thorough else 4, 1, BASES, opts, nontrivial, keep=40000,
+                           label=f"AsmCore relocation core, all programs of <= {5 if thorough else 4} statements", timeout=6000)
+    tasks += t4
     recs2, inc2 = explore(run, "RelocAlphabet", "RelocIncFiles", 7, 2, BASES, simulate=(2000 if thorough else 200), depth=15,
                           seed=run.seed + 3, label="AsmCore relocation simulation (<= 7 stmts x 2 files)")
     tasks2 = replay_all(run, recs2, inc2, {"harness_link": True, "check_syms": False}, nontrivial)
